@@ -235,7 +235,7 @@ theorem post_assign (env : Env) (st : St) (sid : Nat) (tgts : Tgts) (v : Expr) (
     simp only [Bool.and_eq_true, Bool.or_eq_true] at hg
     left
     rcases hg.2 with hn | hn
-    · simp [hn, hx]
+    · simp [hn, tBindsL_sub tgts x hx]
     · exact List.mem_append.mpr (Or.inl (subset_iff.mp hn x hx))
 
 theorem post_annassign (env : Env) (st : St) (sid : Nat) (t : Tgt) (ann : Expr) (v : Exprs) (h : Good env st) :
